@@ -3,9 +3,8 @@
 import Driver.Common
 import GivaroModel.Model.Montgomery
 import GivaroModel.Spec.MontgomerySpec
--- @driver-mode montgomery Driver.Montgomery.montgomeryLine
-namespace Driver.Montgomery
-open Driver
+-- @driver-mode montgomery Driver.montgomeryLine
+namespace Driver
 open Givaro Givaro.Model.Montgomery Givaro.Spec.Montgomery
 
 /-- outs = raw₀ conv₀ raw₁ conv₁ …; every conv must be the expected residue and every raw its Montgomery form -/
@@ -29,6 +28,62 @@ structure Case where
   spec : List Int → Bool
 
 def inRange (p : Int) (xs : List Int) : Bool := xs.all (fun x => decide (0 ≤ x) && decide (x < p))
+
+/-- histories (register machine over 5 registers; every step calls one model function — the register contents are the values of
+    `RExpr` trees over the initial elements, evaluated with sharing) -/
+structure OpsImpl where
+  add : Int → Int → Int
+  sub : Int → Int → Int
+  mul : Int → Int → Int
+  neg : Int → Int
+  axpy : Int → Int → Int → Int
+  axmy : Int → Int → Int → Int
+  maxpy : Int → Int → Int → Int
+  addin : Int → Int → Int
+  subin : Int → Int → Int
+  mulin : Int → Int → Int
+  axpyin : Int → Int → Int → Int
+  axmyin : Int → Int → Int → Int
+  maxpyin : Int → Int → Int → Int
+
+def stepHist (I : OpsImpl) (r : List Int) (op d x y z : Nat) : List Int :=
+  let g := fun i => r.getD i 0
+  match op with
+  | 0 => r.set d (I.add (g x) (g y))
+  | 1 => r.set d (I.sub (g x) (g y))
+  | 2 => r.set d (I.mul (g x) (g y))
+  | 3 => r.set d (I.neg (g x))
+  | 4 => r.set d (I.axpy (g x) (g y) (g z))
+  | 5 => r.set d (I.axmy (g x) (g y) (g z))
+  | 6 => r.set d (I.maxpy (g x) (g y) (g z))
+  | 7 => r.set d (I.addin (g d) (g x))
+  | 8 => r.set d (I.subin (g d) (g x))
+  | 9 => r.set d (I.mulin (g d) (g x))
+  | 10 => r.set d (I.neg (g d))
+  | 11 => r.set d (I.axpyin (g d) (g x) (g y))
+  | 12 => r.set d (I.axmyin (g d) (g x) (g y))
+  | 13 => r.set d (I.maxpyin (g d) (g x) (g y))
+  | _ => r
+
+def runHist (I : OpsImpl) : List Int → List Int → List Int
+  | r, op :: d :: x :: y :: z :: rest =>
+    runHist I (stepHist I r op.toNat (d.toNat % 5) (x.toNat % 5) (y.toNat % 5) (z.toNat % 5)) rest
+  | r, _ => r
+
+def ops32 (F : Ring32) : OpsImpl :=
+  { add := add32 F, sub := sub32 F, mul := mul32 F, neg := neg32 F, axpy := axpy32 F, axmy := axmy32 F, maxpy := maxpy32 F,
+    addin := add32 F, subin := subin32 F, mulin := mulin32 F, axpyin := axpyin32 F, axmyin := axmyin32 F, maxpyin := maxpyin32 F }
+def opsR (C : MgCtx) : OpsImpl :=
+  { add := addR C, sub := subR C, mul := mulR C, neg := negR C, axpy := axpyR C, axmy := axmyR C, maxpy := maxpyR C,
+    addin := addR C, subin := subinR C, mulin := mulR C, axpyin := axpyinR C, axmyin := axmyinR C, maxpyin := maxpyinR C }
+/-- the same history on plain residues -/
+def opsPlain (p : Int) : OpsImpl :=
+  { add := rAdd p, sub := rSub p, mul := rMul p, neg := rNeg p, axpy := rAxpy p, axmy := rAxmy p, maxpy := rMaxpy p,
+    addin := rAdd p, subin := rSub p, mulin := rMul p, axpyin := fun r a b => rAxpy p a b r, axmyin := fun r a b => rAxmy p a b r,
+    maxpyin := fun r a b => rMaxpy p a b r }
+
+def specHist (M p : Int) (plain : List Int) (o : List Int) : Bool :=
+  decide (o.length = 10) && decide (o.drop 5 = plain) && ((o.take 5).zip (o.drop 5)).all (fun (x, v) => repOk M p x v)
 
 def case32 (key : String) (a : List Int) : Option Case :=
   match key, a with
@@ -87,6 +142,14 @@ def case32 (key : String) (a : List Int) : Option Case :=
                checkPairs 65536 p [r1, c1, r3, c3, r4, c4] [v, v, v] &&
                (if v ≥ 0 then checkPairs 65536 p [r2, c2] [v] else true)
              | _ => false }
+  | "m32h", p :: v0 :: v1 :: v2 :: v3 :: v4 :: steps =>
+    let F := mk32 p
+    let vs := [v0, v1, v2, v3, v4]
+    let raws := runHist (ops32 F) (vs.map (initU64 F)) steps
+    let plain := runHist (opsPlain p) (vs.map (· % p)) steps
+    some { pre := admissible32 p && inRange p vs
+           model := raws ++ raws.map (convert32 F)
+           spec := specHist 65536 p plain }
   | _, _ => none
 
 def caseR (key : String) (n : Nat) (a : List Int) : Option Case :=
@@ -144,6 +207,14 @@ def caseR (key : String) (n : Nat) (a : List Int) : Option Case :=
                -- mg_reduc of an arbitrary word: rd·R ≡ |v| (mod p), rd < p
                decide (0 ≤ rd) && decide (rd < p) && decide ((rd * R) % p = av % p)
              | _ => false }
+  | "mrh", p :: v0 :: v1 :: v2 :: v3 :: v4 :: steps =>
+    let C := mkR n p
+    let vs := [v0, v1, v2, v3, v4]
+    let raws := runHist (opsR C) (vs.map (initR C)) steps
+    let plain := runHist (opsPlain p) (vs.map (· % p)) steps
+    some { pre := admissibleR R p && inRange p vs
+           model := raws ++ raws.map (convertR C)
+           spec := specHist R p plain }
   | "rmk", [p] =>
     let C := mkA n p
     some { pre := admissibleR R p
@@ -271,4 +342,4 @@ def montgomeryLine (line : String) : String :=
             let kind := if !specOk && !modelOk then "BOTH" else if !specOk then "SPEC" else "MODEL"
             s!"DIFF kind={kind} model={showInts c.model} | {line.trimAscii.toString}"
 
-end Driver.Montgomery
+end Driver
